@@ -206,6 +206,20 @@ fn simd_swap(do_swap: SimdBool, a: &mut SimdReal, b: &mut SimdReal) {
     *b = _a.select(do_swap, *b);
 }
 
+/// Verification hooks (cargo feature `verif`): one lane of the private bounding-box/line test used
+/// to prune the polyline's bounding volume tree.
+#[cfg(feature = "verif")]
+pub mod verif {
+    use super::*;
+    use parry2d_f64::bounding_volume::Aabb;
+
+    /// `cast_ray` on a single box: does the pruning test keep a box for this (infinite) line?
+    pub fn slab_hit(mins: Point2<f64>, maxs: Point2<f64>, ray: &Ray) -> bool {
+        let bv = SimdAabb::splat(Aabb::new(mins, maxs));
+        cast_ray(&bv, &SimdRay::splat(*ray)).0.extract(0)
+    }
+}
+
 #[cfg(test)]
 mod tests {
     use super::*;
